@@ -151,6 +151,7 @@ def default_pools(c, sc, slices, max_slices=None, max_nodes=6, offset=0):
     if texts:
         t0 = texts[0]
         node_lists.append([{**t0, "text": "X"}, {**t0, "text": "Y"}])
+        node_lists.append([{**t0, "text": "X"}, {**t0, "text": "Y"}, {**t0, "text": "Z"}])
     others = [x for x in picked if x["type"] != "text"]
     if others:
         node_lists.append([others[0], others[0]])
